@@ -3,6 +3,7 @@
 package main
 
 import (
+	"sync"
 	"bytes"
 	"context"
 	"encoding/json"
@@ -306,6 +307,37 @@ func cliRepeat(dir string, c *c19Case, want []byte) string {
 	}
 	if got, _ := os.ReadFile(outFile); !bytes.Equal(got, want) {
 		return fmt.Sprintf("the file written with -o over an existing, longer file differs from the output (%d vs %d bytes)", len(got), len(want))
+	}
+	// several runs at the same time, each with an -o file of its own in one directory (as under
+	// a parallel make): every file holds what a run alone writes
+	var wg sync.WaitGroup
+	res := make([]string, 4)
+	for i := range res {
+		wg.Add(1)
+		go func(i int) {
+			defer wg.Done()
+			of := filepath.Join(dir, fmt.Sprintf("par%d.go", i))
+			ctx, cancel := context.WithTimeout(context.Background(), 120*time.Second)
+			defer cancel()
+			cmd := exec.CommandContext(ctx, bin, append(append(c.Flags.args(), "-o", of), in)...)
+			var se bytes.Buffer
+			cmd.Stderr = &se
+			if err := cmd.Run(); err != nil {
+				if ctx.Err() == nil {
+					res[i] = fmt.Sprintf("one of 4 runs at the same time failed (%v: %s)", err, truncT(se.String(), 200))
+				}
+				return
+			}
+			if got, _ := os.ReadFile(of); !bytes.Equal(got, want) {
+				res[i] = fmt.Sprintf("one of 4 runs at the same time, each with its own -o file in one directory, wrote other bytes (%d vs %d)", len(got), len(want))
+			}
+		}(i)
+	}
+	wg.Wait()
+	for _, r := range res {
+		if r != "" {
+			return r
+		}
 	}
 	return ""
 }
